@@ -143,6 +143,12 @@ class Provenance(Monitor):
                 self._decl_cache.clear()
             ent = self._decl_cache[key] = (c, declared_names(c))
         names = ent[1]
+        if names is None or name not in names:
+            # a negative answer is never taken from the cache: it may have been computed while
+            # discovery had temporarily removed __wrapped__/__signature__ from this very object
+            # (plain retrieval then reports the wrapper's own def only)
+            names = declared_names(c)
+            self._decl_cache[key] = (c, names)
         if names is None:
             return None
         return name in names
